@@ -116,6 +116,16 @@ static void setup_u8_boundary(Runner &r, const Tier &t) {
     r.describe = [](uint64_t i) { uint8_t b[8]; size_t n = u8b_decode(i, b); JObj o; o.kv("enc", 8).kv("units", hex(b, n)); return o; };
     r.body = [](uint64_t i, ShardCtl &c) { uint8_t b[8]; size_t n = u8b_decode(i, b); check_count<uint8_t>(i, b, n, c); };
 }
+// ---------- UTF-8: every first and second byte of a 4-byte string (all 65536 pairs) x third and fourth byte over a 7-value boundary set:
+// every lead byte F0..FF with every possible first continuation byte (over-long forms, values beyond U+10FFFF, the invalid leads F5..FF) ----------
+static const uint8_t C7[7] = { 0x00, 0x41, 0x7F, 0x80, 0xBF, 0xC0, 0xFF };
+static void setup_u8_lead_pairs(Runner &r, const Tier &) {
+    r.ncases = 65536ULL * 49; r.alarm_every = 1 << 16; r.case_alarm_s = 60;
+    r.shard_init = [](int) { g_gb = new GuardBuf(64); };
+    auto decode = [](uint64_t i, uint8_t *b) -> size_t { b[3] = C7[i % 7]; i /= 7; b[2] = C7[i % 7]; i /= 7; b[1] = uint8_t(i); b[0] = uint8_t(i >> 8); return 4; };
+    r.describe = [decode](uint64_t i) { uint8_t b[4]; size_t n = decode(i, b); JObj o; o.kv("enc", 8).kv("units", hex(b, n)); return o; };
+    r.body = [decode](uint64_t i, ShardCtl &c) { uint8_t b[4]; size_t n = decode(i, b); check_count<uint8_t>(i, b, n, c); };
+}
 // ---------- UTF-16 ----------
 static const uint16_t B16[14] = { 0x0000, 0x0041, 0x007F, 0x0080, 0x07FF, 0x0800, 0xD7FF, 0xD800, 0xDBFF, 0xDC00, 0xDFFF, 0xE000, 0xFFFD, 0xFFFF };
 static void setup_u16_short(Runner &r, const Tier &) {
@@ -230,6 +240,7 @@ static void setup_shape(Runner &r, const Tier &t) {
 int main(int argc, char **argv) {
     std::vector<Sub> subs;
     { Sub s; s.name = "utf8_all_le3"; s.setup = setup_u8_all3; s.budget_quick = 100; s.budget_thorough = 300; s.counter_names = { "count_calls", "null_end_calls" }; subs.push_back(s); }
+    { Sub s; s.name = "utf8_lead_pairs_len4"; s.setup = setup_u8_lead_pairs; s.budget_quick = 60; s.budget_thorough = 600; s.counter_names = { "count_calls", "null_end_calls" }; subs.push_back(s); }
     { Sub s; s.name = "utf8_boundary_4to8"; s.setup = setup_u8_boundary; s.budget_quick = 60; s.budget_thorough = 600; s.counter_names = { "count_calls", "null_end_calls" }; subs.push_back(s); }
     { Sub s; s.name = "utf16_le4_boundary"; s.setup = setup_u16_short; s.counter_names = { "count_calls", "null_end_calls" }; subs.push_back(s); }
     { Sub s; s.name = "utf16_pairs"; s.setup = setup_u16_pairs; s.budget_quick = 60; s.budget_thorough = 900; s.counter_names = { "count_calls", "null_end_calls" }; subs.push_back(s); }
